@@ -357,6 +357,39 @@ pub fn c04(ctx: &Ctx, rep: &mut Report) {
     let sh = Shape { max_streams: 3, max_wops: 10, allow_empty: true, allow_drop: false, complete: true, small_windows: false, max_sched: 400 };
     ctx.prop(rep, "progress", ctx.tier.pick(50_000, 2_000_000), 200, || stream_workload(sh), run_c04a);
     ctx.prop(rep, "victim", ctx.tier.pick(40_000, 1_500_000), 200, victim_workload, run_c04b);
+    // counts far above the generated ones: thousands of streams open on one connection at the same time (a busy server side);
+    // every request must be granted while the accepting application keeps accepting
+    const MANY: [usize; 4] = [600, 4200, 2500, 9000];
+    ctx.enumerate(rep, "progress-many-streams", 4, 2, |i| {
+        let n = MANY[(i % 4) as usize];
+        let streams = (0..n)
+            .map(|k| StreamSpec {
+                side: if i >= 2 { k % 2 } else { 0 },
+                port: 9,
+                pad: vec![],
+                delay: 0,
+                park: None,
+                cancel: None,
+                ends: [EndScript { w: vec![WOp::Write(1), WOp::Park(1), WOp::Shutdown], r: vec![ROp::ToEof(8)] }, EndScript { w: vec![WOp::Park(1), WOp::Shutdown], r: vec![ROp::ToEof(8)] }],
+            })
+            .collect();
+        let o = OptsSpec { rwnd: 2, thr: 1, stream_buf: 16, ..OptsSpec::default() };
+        Case { opts: [o.clone(), o], streams, events: vec![RawEvent { when: Trigger::Quiescent, what: What::Wake(1) }], step_bound: 8_000_000, ..Case::default() }
+    }, |case| {
+        let run = run_case(case);
+        if !run.quiescent {
+            return inconclusive(&run);
+        }
+        let a = Analysis::new(case, &run);
+        let failed: Vec<(usize, String)> = a.streams.iter().enumerate().filter_map(|(i, s)| if s.open_ok_at.is_none() { Some((i, s.open_err.clone().unwrap_or_else(|| "pending".into()))) } else { None }).collect();
+        if let Some((i, e)) = failed.first() {
+            return Outcome::violation("c04-stream-request-refused", format!("{} streams requested on one connection while the accepting application keeps accepting: {} requests were not granted, the first being request {i}: {e}", case.streams.len(), failed.len()));
+        }
+        if let Err((sig, msg)) = progress_verdict(case, &run, None) {
+            return Outcome::violation(sig, msg);
+        }
+        Outcome::pass(true, vec!["thousands-of-streams-open-at-once"])
+    });
     // very large writes against a reader that starts late: every write must still complete and every byte arrive
     ctx.enumerate(rep, "progress-large-writes", LARGE_WRITE_LAG_CASES, 4, large_write_lag_case, |case| {
         let mut o = run_c04a(case);
